@@ -124,7 +124,9 @@ def report_new(v: Verdict, new, oracle_name, budget=25.0, max_reports=6):
 
             def fails(c, d=d):
                 po, so = O.run_both(c)
-                return any(x["kind"] == d["kind"] and x.get("exc") == d.get("exc") for x in fn(c, po, so))
+                return any(x["kind"] == d["kind"] and x.get("exc") == d.get("exc") and x.get("dclass") == d.get("dclass")
+                           and (x.get("msg") or "")[:40] == (d.get("msg") or "")[:40]
+                           for x in fn(c, po, so))
 
             try:
                 small = shrink.shrink(r["program"], fails, budget_s=budget, keep=[d["stmt"]])
